@@ -11,7 +11,7 @@ pub fn plan() -> Plan {
         meta: Meta {
             property: "C15",
             level: "exploration",
-            rule: "model differential after EVERY step: records_count, records_count_detailed (counts per blob in order, ids of closed blobs), records_count_in_active_blob, blobs_count, next_blob_id, corrupted_blobs_count against the model (records physically appended per blob incl. markers, blobs that exist); disk_used against the directory listing: exact equality at quiescent points (right after free_excess_resources + worker barrier when the active blob has no index file), otherwise bounded by [sum of blob files, sum of blob+index files]. Histories: puts/deletes (incl. deletes into closed blobs), manual close/restore/create, background variants, force updates, dumps, restarts with index removal, plus quarantine scenarios (a blob cut inside a record header with its index removed => quarantined, or with ignore_corrupted left in place: not counted, id still taken, bytes not 'used'; cut exactly at a record boundary => regenerated shorter; counters re-checked after two restarts; see observed.quarantine_scenarios_*). Non-trivial = history with >=1 lifecycle operation that ran >=3 steps.",
+            rule: "model differential after EVERY step: records_count, records_count_detailed (counts per blob in order, ids of closed blobs), records_count_in_active_blob, blobs_count, next_blob_id, corrupted_blobs_count against the model (records physically appended per blob incl. markers, blobs that exist); disk_used against the directory listing: exact equality at quiescent points (right after free_excess_resources + worker barrier when the active blob has no index file), otherwise bounded by [sum of blob files, sum of blob+index files]. Histories: puts/deletes (incl. deletes into closed blobs), manual close/restore/create, background variants, force updates, dumps, restarts with index removal, plus quarantine scenarios (a blob cut inside a record header with its index removed => quarantined, or with ignore_corrupted left in place: not counted, id still taken, bytes not 'used'; cut exactly at a record boundary => regenerated shorter; counters re-checked after two restarts; see observed.quarantine_scenarios_*). A quarter of the random histories rotate automatically (record limit 1-4 or size limit 100-900 bytes with a 0 ms rotation debounce; every rotation the worker performs is mirrored into the model, a rotation below the limit is a mismatch); one in eight starts with 9-14 small blobs (two-digit blob ids, several filter levels); one in twelve starts with a fat blob of 70-140 records (multi-leaf on-disk index). Non-trivial = history with >=1 lifecycle operation that ran >=3 steps.",
             assumptions: vec!["verdict holds for the executions produced by this seed only"],
         },
         shards: 16,
